@@ -66,6 +66,24 @@ func entries() []entry {
 		{"SpecialOpCall", func(g *rig) *lisp.LVal {
 			return g.env.SpecialOpCall(sym(g, "progn"), lisp.QExpr([]*lisp.LVal{readOne(g, "(loop 2)")}))
 		}},
+		// the host enters at a BUILTIN or special operator whose own Go code re-enters the evaluator several times
+		// (callbacks, body forms): all of that is ONE top-level evaluation under ONE budget
+		{"FunCall-builtin-map", func(g *rig) *lisp.LVal {
+			return g.env.FunCall(sym(g, "map"), lisp.QExpr([]*lisp.LVal{lisp.Quote(lisp.Symbol("list")), sym(g, "loop"), lisp.QExpr([]*lisp.LVal{lisp.Int(2), lisp.Int(1), lisp.Int(2)})}))
+		}},
+		{"FunCallContext-builtin-foldl", func(g *rig) *lisp.LVal {
+			return g.env.FunCallContext(bg, sym(g, "foldl"), lisp.QExpr([]*lisp.LVal{readOne(g, "(lambda (acc x) (loop x))"), lisp.Int(0), lisp.QExpr([]*lisp.LVal{lisp.Int(2), lisp.Int(2)})}))
+		}},
+		{"FunCall-builtin-funcall", func(g *rig) *lisp.LVal {
+			return g.env.FunCall(sym(g, "funcall"), lisp.QExpr([]*lisp.LVal{sym(g, "loop"), lisp.Int(2)}))
+		}},
+		{"SpecialOpCall-progn-three-forms", func(g *rig) *lisp.LVal {
+			return g.env.SpecialOpCall(sym(g, "progn"), lisp.QExpr([]*lisp.LVal{readOne(g, "(loop 1)"), readOne(g, "(loop 2)"), readOne(g, "(loop 2)")}))
+		}},
+		{"SpecialOpCall-dotimes", func(g *rig) *lisp.LVal {
+			return g.env.SpecialOpCall(sym(g, "dotimes"), lisp.QExpr([]*lisp.LVal{readOne(g, "(i 3)"), readOne(g, "(loop i)")}))
+		}},
+		{"EvalSExpr-builtin-map", func(g *rig) *lisp.LVal { return g.env.EvalSExpr(readOne(g, "(map 'list loop '(2 1 2))")) }},
 	}
 }
 
@@ -142,6 +160,14 @@ func refillCheck(a, b entry, budgetA int64) (bad bool, rep string) {
 	if gotOut.String() != wantOut.String() || gotSteps != nb || len(gotTr) != len(wantTr) {
 		return true, rep
 	}
+	// one top-level evaluation counts its steps ONCE: the count seen by successive probes never goes back, and the
+	// final count is at least what the last probe saw (a budget refilled in the middle of an evaluation restarts it)
+	if m := monotone(wantTr, nb); m != "" {
+		return true, rep + "; fresh B: " + m
+	}
+	if m := monotone(gotTr, gotSteps); m != "" {
+		return true, rep + "; B after A: " + m
+	}
 	if nb > 1 {
 		o2, _, _ := g.entryRun(b, nb-1)
 		rep += fmt.Sprintf("; B budget=%d -> %s", nb-1, o2.String())
@@ -159,6 +185,22 @@ func refillCheck(a, b entry, budgetA int64) (bad bool, rep string) {
 		}
 	}
 	return false, rep
+}
+
+// monotone: the step counts recorded by the probes of ONE top-level evaluation are non-decreasing and bounded by the
+// evaluation's final count.
+func monotone(tr []event, final int64) string {
+	var last int64
+	for i, e := range tr {
+		if e.Step < last {
+			return fmt.Sprintf("step count went back from %d to %d at probe %d of %s", last, e.Step, i, evs(tr))
+		}
+		last = e.Step
+	}
+	if final < last {
+		return fmt.Sprintf("final step count %d below the %d a probe saw: %s", final, last, evs(tr))
+	}
+	return ""
 }
 
 func refillCase(k kase) (bool, string) {
